@@ -399,7 +399,9 @@ class Check:
         ev = dict(property_id=self.pid, tier=self.tier, seed=self.seed, level=self.level, coverage=cov,
                   assumptions=self.assumptions, wall_s=round(wall, 2), violations=len(self.violations))
         evname = self.pid + ('.replay.json' if getattr(self, 'is_replay', False) else '.json')
-        with open(os.path.join(VERIF, 'evidence', evname), 'w') as f:
+        evdir = 'evidence' if self.pid.startswith('C') else 'evidence_extra'      # X.. checks are not properties of the list
+        os.makedirs(os.path.join(VERIF, evdir), exist_ok=True)
+        with open(os.path.join(VERIF, evdir, evname), 'w') as f:
             json.dump(ev, f, indent=1, default=str)
         print('%s %s tier=%s seed=%d states=%d transitions=%d traces=%d evaluations=%d wall=%.1fs' % (
             self.pid, 'VIOLATED' if self.violations else 'held', self.tier, self.seed, self.states,
